@@ -10,7 +10,7 @@ META = {
         "text": "Kernel-checked: for every layout of a log (message formats 0/1/2, any batch boundaries, compressed batches and wrappers, compaction holes at head/inside/tail, retained empty batches in any number, batches beginning before the start offset), every byte cut and every start offset, one fetch round delivers exactly the completely contained records at or above the start offset, in order, each once, never panics/desynchronises, never jumps over a stored record — stated for the token machine, for the statement-level model of message_reader.go/batch.go (pull parser, pull_eq_run) and about bytes (tokenize_items). Under the fetch contract the position strictly advances; iterating against any contract-obeying answers delivers the log from the start offset gap-free and duplicate-free. The Reader's reconnect/backoff loop is a total LTS; with the read outcomes computed (broker under the fetch contract, connections lost at any byte, deadlines, cancellation; decoder as written) it pushes exactly the stored records from the resolved start offset, each once, in order (reader_end_to_end), cannot starve (reader_no_starvation), and is the fetcher the front model assumes (reader_loop_is_fetcher). The whole Reader (front with version tags + one loop per fetcher + world): after SetOffset(o) FetchMessage returns take n (feed log o) for every interleaving (reader_delivers); sequential API spec with Offset(), SetOffset's no-op rule and the lazy start (reader_api). The models are tied to the code by running both on the same generated layouts/cuts/offsets (byte level through Conn.ReadBatch for fetch v2/v5/v10), scripted Reader runs, hook traces of the loop and the front replayed through the LTSs, and go/ast facts incl. the normalised text of readMessage/readMessageV1/markRead/unwindStack.",
         "design_ref": "DESIGN.md §7 C02",
     },
-    "level_note": "Proved in general: single_fetch / fetch_progress / iterated_fetch (all message formats, any cut/offset/budgets; `Safe` = no v0/v1 message skipped right before a v2 batch, implied by the fetch contract); bytes↔tokens for everything the Spec encoder can emit, truncated anywhere (codec as a parameter with dec∘enc = id); pull parser = token machine on every token stream unless the latter reports desync; loop/world/front/system theorems over every event sequence. Structural facts of the decoder and loop source are re-extracted by go/ast on every run (Gen/DecoderFacts.lean, after a normalisation pass that makes extract-method refactorings, local renames and clause reorderings invisible) and compared by theorems. Trusted: Lean kernel; propext/Classical.choice/Quot.sound; that the Lean models transcribe the Go text (sampled: driver cases, rtrace/ftrace replays, pullfuzz, tok; pinned by the go/ast facts); the fetch contract (first batch whole, KIP-74) and Env.ok (a reported first offset is not above a stored record) as hypotheses; codecs/net modelled not verified, bufio only where control flow depends on it (readVarInt's refill loop: varint_refill); deadlines and cancellation are environment events; the consumer-group mode is outside the statement; LastOffset means the log end the broker reports at the first successful initialize.",
+    "level_note": "Proved in general: single_fetch / fetch_progress / iterated_fetch (all message formats, any cut/offset/budgets; `Safe` = no v0/v1 message skipped right before a v2 batch, implied by the fetch contract); bytes↔tokens for everything the Spec encoder can emit, truncated anywhere (codec as a parameter with dec∘enc = id), and for uncompressed v2/v1/v0 layouts as a theorem about the byte-level Go reads strung together (walk_bytes, single_fetch_walk; header_bytes/record_bytes/message_bytes/wrapper_bytes per item, reads_within_remain: no read looks beyond the set, varint_refill: independent of how the network cuts the stream); pull parser = token machine on every token stream unless the latter reports desync; loop/world/front/system theorems over every event sequence. Structural facts of the decoder and loop source are re-extracted by go/ast on every run (Gen/DecoderFacts.lean, after a normalisation pass that makes extract-method refactorings, local renames and clause reorderings invisible) and compared by theorems. Trusted: Lean kernel; propext/Classical.choice/Quot.sound; that the Lean models transcribe the Go text (sampled: driver cases, rtrace/ftrace replays, pullfuzz, tok; pinned by the go/ast facts); the fetch contract (first batch whole, KIP-74) and Env.ok (a reported first offset is not above a stored record) as hypotheses; codecs/net modelled not verified, bufio only where control flow depends on it (readVarInt's refill loop: varint_refill); deadlines and cancellation are environment events; the consumer-group mode is outside the statement; LastOffset means the log end the broker reports at the first successful initialize.",
 }
 
 MODULE = "KafkaVerif.Props.C02"
